@@ -170,7 +170,7 @@ def run_check(mod, tier, seed, budget_s=None, nproc=None):
         sys.stderr.write("HARNESS-ERROR in %d unit(s); first:\n%s\n" % (len(errors), errors[0][1]))
         return 3
     wall = time.time() - t0
-    return finish(mod, tier, seed, total, wall, len(units), len(results), capped)
+    return finish(mod, tier, seed, total, wall, len(units), len(results), capped, units)
 
 
 # ------------------------------------------------------------------------------------------------
@@ -220,7 +220,7 @@ def load_replay(path):
     return body, ast.literal_eval(body["case_repr"])
 
 
-def finish(mod, tier, seed, total, wall, n_units, n_done, capped):
+def finish(mod, tier, seed, total, wall, n_units, n_done, capped, units_list=None):
     pid = mod.ID
     open_, _fixed = load_known()
     open_sigs = {d.get("sig"): d for d in open_ if d.get("property") == pid}
@@ -243,9 +243,36 @@ def finish(mod, tier, seed, total, wall, n_units, n_done, capped):
         r1 = _safe_replay(mod, v["case"])
         r2 = _safe_replay(mod, v["case"])
         if r1 != r2 or not r1 or isinstance(r1, str):
-            sys.stderr.write("HARNESS-ERROR: violation sig=%s does not replay deterministically:\n case=%r\n r1=%r\n r2=%r\n"
-                             % (sig, v["case"], r1, r2))
-            return 3
+            # The single case does not reproduce on fresh objects.  If the library keeps state across calls the
+            # failure may need the work unit's whole (deterministic) sequence of calls: re-run that unit twice in
+            # fresh processes and believe the violation only if its signature shows up both times.
+            unit = units_list[v["order"][1]] if units_list is not None else None
+            u1 = _unit_sigs(mod, unit, tier, seed) if unit is not None else None
+            u2 = _unit_sigs(mod, unit, tier, seed) if unit is not None else None
+            if u1 and u1 == u2 and not isinstance(u1, str):
+                usig = sig if sig in u1 else u1[0]
+                v = dict(v, sig=usig, case={"__unit__": unit, "tier": tier, "seed": seed, "sig": usig,
+                                            "first_case": v["case"]},
+                         note="history-dependent: reproduces only within the work unit's call sequence")
+                sig = usig
+            else:
+                # not even the unit reproduces it in a fresh process: the failure needs state left behind by earlier
+                # work units of the same worker.  Run the units sequentially (canonical order, one fresh process)
+                # until the first violation; that run is deterministic.
+                s1 = _sequential_first(mod, tier, seed, 150, units=units_list)
+                s2 = _sequential_first(mod, tier, seed, 150, units=units_list) if s1 and not isinstance(s1, str) else None
+                if not s1 or s1 != s2 or isinstance(s1, str):
+                    sys.stderr.write("HARNESS-ERROR: violation sig=%s does not replay deterministically:\n case=%r\n"
+                                     " r1=%r\n r2=%r\n unit re-runs: %r / %r\n sequential runs: %r / %r\n"
+                                     % (sig, v["case"], r1, r2, u1, u2, s1, s2))
+                    return 3
+                v = dict(v, sig=s1[1], case={"__sequential__": s1[0], "tier": tier, "seed": seed, "sig": s1[1],
+                                             "first_case": v["case"]},
+                         note="history-dependent across work units: reproduces when the units are run sequentially "
+                              "in one process (first violation in unit #%d)" % s1[0])
+                sig = s1[1]
+            if any(l.startswith("VIOLATION") and ("sig=%s " % sig) in lines[i + 1] for i, l in enumerate(lines[:-1])):
+                continue      # already reported under this signature
         if hasattr(mod, "repro_py"):
             try:
                 v["repro_py"] = mod.repro_py(v["case"])
@@ -308,6 +335,54 @@ def finish(mod, tier, seed, total, wall, n_units, n_done, capped):
     return exit_code
 
 
+_UNIT_ARGS = {}
+
+
+def _unit_child(_ignored):
+    a = _UNIT_ARGS
+    try:
+        part = a["mod"].run_unit(a["unit"], a["tier"], a["seed"])
+        return sorted(part.viol_sigs)
+    except BaseException:
+        return "EXC " + traceback.format_exc()
+
+
+def _unit_sigs(mod, unit, tier, seed):
+    """signatures reported by one work unit executed in a fresh (forked) process"""
+    _UNIT_ARGS.update(mod=mod, unit=unit, tier=tier, seed=seed)
+    ctx = mp.get_context("fork")
+    with ctx.Pool(1) as pool:
+        return pool.apply(_unit_child, (None,))
+
+
+def _seq_child(_ignored):
+    a = _UNIT_ARGS
+    t0 = time.time()
+    try:
+        units = a.get("units")
+        if units is None:
+            units = a["mod"].units(a["tier"], a["seed"])
+        for i, unit in enumerate(units):
+            part = a["mod"].run_unit(unit, a["tier"], a["seed"])
+            if part.viol_sigs:
+                return (i, sorted(part.viol_sigs)[0])
+            if a.get("stop_after") is not None and i >= a["stop_after"]:
+                return None
+            if time.time() - t0 > a["cap"]:
+                return None
+        return None
+    except BaseException:
+        return "EXC " + traceback.format_exc()
+
+
+def _sequential_first(mod, tier, seed, cap_s, stop_after=None, units=None):
+    """(unit index, signature) of the first violation when all units run in canonical order in ONE fresh process"""
+    _UNIT_ARGS.update(mod=mod, tier=tier, seed=seed, cap=cap_s, stop_after=stop_after, units=units)
+    ctx = mp.get_context("fork")
+    with ctx.Pool(1) as pool:
+        return pool.apply(_seq_child, (None,))
+
+
 def _safe_replay(mod, case):
     try:
         return [(_s, _short(e), _short(o)) for (_s, e, o) in mod.replay(case)]
@@ -317,7 +392,15 @@ def _safe_replay(mod, case):
 
 def do_replay(mod, path):
     body, case = load_replay(path)
-    res = mod.replay(case)
+    if isinstance(case, dict) and "__sequential__" in case:
+        r = _sequential_first(mod, case["tier"], case["seed"], 600, stop_after=case["__sequential__"],
+                              units=list(mod.units(case["tier"], case["seed"])))
+        res = [(r[1], "no violation", "violation in unit #%d of the sequential run" % r[0])] if r and not isinstance(r, str) else []
+    elif isinstance(case, dict) and "__unit__" in case:
+        part = mod.run_unit(case["__unit__"], case["tier"], case["seed"])
+        res = [(x["sig"], x["expected"], x["observed"]) for x in part.viol if x["sig"] == case["sig"]][:1]
+    else:
+        res = mod.replay(case)
     if res:
         for sig, exp, obs in res:
             print("VIOLATION property=%s replay=%s" % (mod.ID, path))
